@@ -43,7 +43,14 @@ META = {
             "dot: ((1+eps)^n-1) sum|x_i y_i| + (2n-1) eta (1+eps)^n; norm2: 7/2 (eps+eta) sqrt(x^2+y^2) + eta), proved in the "
             "standard rounding model |rnd x - x| <= eps|x| + eta with gradual underflow, overflow excluded; IEEE binary64 "
             "round-to-nearest-even satisfies that model with eps=2^-53, eta=2^-1075 by Flocq (C11_binary64_satisfies_model) - "
-            "the step from the rounded-real term to the C's binary64 run, norm3/norm_ and the libm-based bodies remain unproved. "
+            "the step from the rounded-real term to the C's binary64 run and the libm-based bodies remain unproved. "
+            "ROUNDING OF THE NORMS (C11/NormRound.v, C11_norm*_rounding_*, 5 theorems): for a_real_norm/a_real_norm_ of EVERY length "
+            "n>=1 and stride>=1 with largest magnitude w>0, every cell 0 or >= 2 eta in magnitude (every binary64 number is) and "
+            "(n+3)(eps+eta) <= 1/64: pass 1 (max) is exact, and |fl - N| <= ((9/16 n + 15/4) eps + (9/4 n + 17/16) eta) N + eta <= "
+            "(9/4 n + 15/4)(eps+eta) N + eta, N = sqrt(sum p_i^2) (first-order truth (n/2+3.5) eps; the last eta is the absolute "
+            "underflow error of the final product by w); the all-zero vector returns 0; a_real_norm3: |fl - N| <= (21/4 eps + 25/4 "
+            "eta) N + eta for rnd 1 = 1, eps+eta <= 1/64; binary64 corollaries (n <= 2^45) by Flocq. Constants explicit, not sharp; "
+            "overflow and the infinite-cell branch are outside these theorems. "
             "LOOP TIE (harness/C11/TieLoop*.v, 30 theorems re-proved on every run): the 26 reductions and array helpers are "
             "regenerated from the current math.c with their loops as Fixpoints (tools/c2arr.py: arrays as lists with checked "
             "access, counters as nat, every would-be wrap of n*c, i+c or sizeof(a_real)*n an error) and proved equal to the list "
@@ -62,7 +69,8 @@ META = {
             "formed beyond the end of an array by the strided loops are not bounded (only accesses are); the translator "
             "tools/c2arr.py is trusted to read the C right (its output is proved equal to the model, not to the C); mpmath as reference for the sampled "
             "accuracy; gcc -O2 -ffp-contract=off being IEEE per operation. Rounding error of the float evaluation is measured, "
-            "not proved; signed zeros/inf/NaN behaviour is compared with the model but is outside the theorems.",
+            "not proved (the rounding theorems for sum/dot/mean/norm2/norm/norm_/norm3 are about the rounded-real instance of the "
+            "model, whose composition into the primitive-float run of a whole loop is not proved); signed zeros/inf/NaN behaviour is compared with the model but is outside the theorems.",
     "technique": "Rocq proof over R (lra/nra/field, Coquelicot, interval) + the 13 scalar fallback bodies of math.c regenerated by a translator and proved equal to the model on every run, the reductions and array helpers unrolled for counts 0..3 / strides 0..2 and proved equal to the list model, and regenerated with their loops as Fixpoints and proved equal to it for every length and stride + bit-exact primitive-float model vs C correspondence + sampled mpmath accuracy",
 }
 
